@@ -392,7 +392,7 @@ def mutants(doc):
                 if t != cur:
                     yield "M4-retype-to-registered", locus, path, put(doc, path, t)
         elif role == "name":
-            for bad in (7, []):
+            for bad in (7, [], 0, 0.0, False, {}, ["a"]):
                 yield "M3-retype", "%s.%s" % (T, path[-1]), path, put(doc, path, bad)
         elif role == "str":
             for bad in (7, None, []):
